@@ -139,7 +139,7 @@ func zzCheckError(err error, s string) {
 func zzH_C13_S() {
 	n := 12
 	if zzTier() >= 1 {
-		n = 15
+		n = 14
 	}
 	mode := zzChoose(2) + 1
 	zzStubs(mode)
